@@ -5,6 +5,10 @@ props=[json.loads(l) for l in open('/verif/properties.jsonl')]
 ids=[p['id'] for p in props]
 TECH="bounded symbolic execution of the Go SSA of the real code (own engine gosym) with SMT-decided path conditions and assertions (z3 5.1 bit-vectors); counterexamples replayed natively"
 claimed={
+ "C20": dict(
+   text="Bounded symbolic model checking of golang.CodeUtils.HandleOptions/checkBool/validateOptions (option table built by reflection, executed through the engine's reflect model): for every documented boolean option and every value string of 0..3 (thorough 5) FREE bytes the result is an error iff the value is not '', 'true' or 'false', otherwise exactly that feature is switched and every other feature equals the default documented in README.md; ordered pairs and option triples with free positions and values apply sequentially (last write wins, also for names that are prefixes of one another); naming_style/template/use_package with free value strings accept exactly the documented values; slim disables deep-equal; documented invalid combinations are rejected.",
+   note="The pair/triple dimension is a finite choice space enumerated through the solver; the solver's own contribution is the value-string dimension. Documented defaults are parsed from README.md on every run; the option -> Features field table is part of the harness. Outside: thriftgo -h text, flag parsing, args.checkOptions' template adaptation.",
+   ref="6 C20"),
  "C17": dict(
    text="Bounded symbolic model checking of parse -> semantic check -> dump.DumpIDL -> parse -> check on the real SSA (including the interpreted html.UnescapeString and the placeholder substitutions): for every literal body of the stated length (free ASCII bytes) at 12 positions and both quote kinds, for placeholder prefixes followed by free bytes, for integer/double/id spellings with free digits and for service shapes with free counts and flags, whenever the source is accepted the dumped text is accepted and its AST equals the original node by node (doubles by value).",
    note="Bounds: one literal at a time, <=3 (thorough 4) free bytes; 2 free digits; <=2 arguments x <=3 throws. Five known findings of the dumper's quoting scheme are reported as KNOWN-FINDING inside narrow value regions (value contains backslash+quote, ##34;, #OUTQUOTES, '&' in a type annotation, a double quote in an include path); outside those regions every mismatch is a violation. DumpIDL_V1 (html/template) is outside.",
